@@ -2,7 +2,7 @@
 from reg._common import COMMON_ASSUME
 
 ENTRY = {
-    'lean_files': ['Tables/C03.lean', 'Props/C03.lean'],
+    'lean_files': ['Tables/C03.lean', 'Props/C03.lean', 'Props/C03Pipeline.lean'],
     'lemma_files': ['Lemmas/TangentEnds.lean', 'Lemmas/EvalBary.lean', 'Lemmas/Bridge.lean', 'Lemmas/Shift.lean',
                     'Lemmas/VS.lean', 'Model/Curve.lean', 'Model/Basic.lean'],
     'script': 'props/c03.py',
